@@ -168,6 +168,9 @@ func generate(w *World, prop string) *checkRun {
 			}
 		}
 	}
+	if prop == "C20" {
+		run.obls = append(run.obls, w.ownershipObligations()...)
+	}
 	return run
 }
 
